@@ -45,7 +45,10 @@ RULE_ADDED = (
               ' '
               'Round 14: slow answers (2.5..61 s) over the TCP transports; a heartbeat after wh'
               'ich the device is locked in the bootloader and its signer does not come up whate'
-              'ver is done. ')
+              'ver is done. '
+              ' '
+              'Round 16: a device answering one hash query of blockchainState with another hash'
+              "'s identifier and datum. ")
 RULE = RULE + " " + RULE_ADDED.strip()
 ASSUMPTIONS = [
     "simulated device + fake HID/TCP transports are trusted; firmware selectors are parsed "
@@ -246,6 +249,33 @@ def run_state(acc, cseed, platform, fw, nets, cmpf, Stack, SimDevice):
         acc.evaluations += 1
         if exc is not None or (reply or {}).get("errorcode") != -103:
             acc.violation("unlisted-path-not-103", {"exc": repr(exc), "reply": reply}, case)
+        # ---- a device that answers one of the hash queries with another hash: a well-formed
+        # answer naming another of the seven identifiers, with that one's datum.  The reply
+        # is an error, or whatever it says under a name is what the device said under it
+        if rng.random() < 0.08:
+            ids = sorted(hashes)
+            asked, other = rng.sample(ids, 2)
+
+            def swapped(d, apdu, asked=asked, other=other):
+                if len(apdu) > 3 and apdu[2] == 1 and apdu[3] == asked:
+                    return bytes([0x80, 0x20, 1, other]) + hashes[other]
+                return d.get_state(apdu)
+            dev.extra[0x20] = swapped
+            reply, exc, _ = s.request({"command": "blockchainState", "version": 5})
+            dev.extra.pop(0x20, None)
+            acc.evaluations += 1
+            acc.count("state_queries_answered_with_another_hash")
+            if exc is None and isinstance(reply, dict) and reply.get("errorcode") == 0:
+                st_ = reply.get("state", {})
+                for field, fwname in fwconst.STATE_FIELD_TO_FW.items():
+                    node = st_
+                    for part in field.split("."):
+                        node = node.get(part) if isinstance(node, dict) else None
+                    if fw[fwname] == asked and node != hashes[asked].hex():
+                        acc.violation("state-reply-puts-another-hash-under-a-name",
+                                      {"field": field, "reply_value": node,
+                                       "device_value_for_that_name": hashes[asked].hex(),
+                                       "answered_identifier": other}, case)
         # ---- blockchainState
         reply, exc, _ = s.request({"command": "blockchainState", "version": 5})
         acc.evaluations += 1
